@@ -35,6 +35,7 @@ def gen_config(rng, tier, dims=(1, 2, 2, 2, 3, 3, 4), max_steps=None, box_kinds=
         "steps": rng.randint(1, steps_cap),
         "errseed": rng.randrange(2 ** 31),
     }
+    cfg["recalc"] = rng.choice([None, None, None, 1, 3, 10])   # recalculate_frequently with this many refinements per restart
     if cfg["profile"] in ("equal", "zeros") and d >= 3:
         cfg["steps"] = min(cfg["steps"], 3)
     if cfg["profile"] in ("equal", "zeros"):
@@ -59,6 +60,7 @@ def build(cfg, f, observer, modified_basis=False, operation=None, grid=None):
             rebalancing=cfg["rebalancing"], rebalancing_safety_factor=cfg["safety"], norm=cfg.get("norm", np.inf),
             log_level=100, print_level=100)
     c.vobs = observer
+    c.verif_recalc = cfg.get("recalc")
     return c
 
 
